@@ -322,6 +322,10 @@ func (g *histGen) name(defined map[string]bool, pool string) string {
 	if g.o.names > 0 && g.o.names < 3 {
 		names = names[:g.o.names]
 	}
+	for k := 3; k < g.o.names; k++ {
+		// larger pools: more names alive at once than any small fixed-size table holds
+		names = append(names, fmt.Sprintf("%s%d", pool, k))
+	}
 	if g.o.unknownNames && g.r.Chance(1, 8) {
 		return pool + "x" // never defined
 	}
@@ -668,6 +672,70 @@ func (g *histGen) unit() {
 					}
 				}
 				g.add(pgwire.FMsg{K: "S"})
+			}})
+		}
+		if g.o.churn {
+			cs = append(cs, choice{1, func() {
+				// a small table under stress: 3-9 portals (or statements) alive at the
+				// same time, then rounds of closing one, defining one again (a live or a
+				// closed one), closing it, and using names - whatever fixed-size table,
+				// slot array or overflow structure holds them resolves every name to its
+				// latest definition and forgets what was closed
+				key := g.newKey()
+				sp := g.genStmt(true)
+				g.c.Programs[key] = &Program{Stmts: []*StmtProg{sp}}
+				sn := g.name(nil, "s")
+				g.add(pgwire.FMsg{K: "P", S1: sn, S2: key})
+				k := r.Range(3, 9)
+				pool := make([]string, k)
+				for i := range pool {
+					pool[i] = fmt.Sprintf("w%d", i)
+				}
+				portals := r.Chance(2, 3)
+				define := func(n string) {
+					if portals {
+						g.add(g.genBind(n, sn))
+					} else {
+						g.add(pgwire.FMsg{K: "P", S1: n, S2: key})
+					}
+				}
+				closeIt := func(n string) {
+					if portals {
+						g.add(pgwire.FMsg{K: "C", Sub: 'P', S1: n})
+					} else {
+						g.add(pgwire.FMsg{K: "C", Sub: 'S', S1: n})
+					}
+				}
+				use := func(n string) {
+					if portals {
+						g.add(pgwire.FMsg{K: "E", S1: n}, pgwire.FMsg{K: "S"})
+					} else {
+						g.add(g.genBind("", n), pgwire.FMsg{K: "E", S1: ""}, pgwire.FMsg{K: "S"})
+					}
+				}
+				for _, n := range pool {
+					if g.stop {
+						return
+					}
+					define(n)
+				}
+				g.add(pgwire.FMsg{K: "S"})
+				for rounds := r.Range(2, 6); rounds > 0 && !g.stop; rounds-- {
+					closeIt(pool[r.Intn(k)])
+					x := pool[r.Intn(k)]
+					define(x)
+					if r.Bool() {
+						closeIt(x)
+					}
+					g.add(pgwire.FMsg{K: "S"})
+					if g.stop {
+						return
+					}
+					use(x)
+					if r.Bool() && !g.stop {
+						use(pool[r.Intn(k)])
+					}
+				}
 			}})
 		}
 		if g.o.binary {
